@@ -422,6 +422,23 @@ def keypath_noidx(k):
     return re.sub(r'\{closure#\d+\}', '{closure}', k)
 
 
+def flatten_caps(core, caps, _depth=0):
+    """captured (name, type) pairs with a captured struct of the crate replaced by its fields (a closure whose state was moved into a
+    struct that did not exist when the rules were confirmed captures the same things)"""
+    from rules import inline
+    known = inline.inventory().get('adts:' + core.name) or set()
+    if not known:
+        return [(n, norm(t)) for n, t in caps]
+    out = []
+    for name, ty in caps:
+        a = core.adts.get(norm(ty.split('<')[0])) if _depth < 3 else None
+        if a is not None and a['kind'] == 'struct' and not ty.startswith('&') and a['path'] not in known:
+            out += flatten_caps(core, [('%s.%s' % (name, f['name']), f['ty']) for f in a['variants'][0]['fields']], _depth + 1)
+        else:
+            out.append((name, norm(ty)))
+    return out
+
+
 def check_private_channels(rep, core):
     sites = []
     for f in core.built:
@@ -438,7 +455,7 @@ def check_private_channels(rep, core):
         if clo is None:
             rep.bad('R02.c', key + '|closure', 'resolve closure of %s not found' % f.path)
             continue
-        caps = [(u['name'], norm(u['ty'])) for u in clo.upvars]
+        caps = flatten_caps(core, [(u['name'], u['ty']) for u in clo.upvars])
         # --- R02.c
         chan_calls = [(b2, t2) for b2, t2 in f.calls('futures_channel::mpsc::unbounded', 'crux_core::capability::channel::channel')]
         arc_new = [(b2, t2) for b2, t2 in f.calls('alloc::sync::Arc::new') if 'SharedState' in t2['d']['t']]
